@@ -98,6 +98,7 @@ let rec canon (v : value) : Stdlib.String.t =
 let err_name = function
   | EStruct -> "struct" | EAssert -> "assert" | EKey -> "key" | EIndex -> "index" | ENotImpl -> "notimpl"
   | EUnicode -> "unicode" | ERuntime -> "runtime" | EOS -> "os" | EEmpty -> "empty" | EFuel -> "FUEL" | EOther -> "other"
+  | EValue -> "value" | EType -> "type"
 
 let dump_trace (w : world) =
   List.iter (function
@@ -339,6 +340,47 @@ let cmd_defs () =
         pl "PC" m.e_client; pl "PI" m.e_internal; pl "PL" m.e_cell; pl "PB" m.e_base;
         Printf.printf "VOL %s\n" (String.concat "," (List.sort compare (List.map ocaml_string_of m.e_vol)))) st.s_models
 
+(* ---------- container ---------- *)
+let read_file path = let ic = open_in_bin path in let s = really_input_string ic (in_channel_length ic) in close_in ic; s
+let hexo l = let h = hex_of_bytes l in if h = "" then "-" else h
+(* container <path> : the extension is taken from the path by the model's ext_of *)
+let dec_cache : (Model.n list, (byte list -> byte list)) Hashtbl.t = Hashtbl.create 3
+let enc_cache : (Model.n list, (byte list -> byte list)) Hashtbl.t = Hashtbl.create 3
+let ciph_dec key = try Hashtbl.find dec_cache key with Not_found -> let f = real_cipher key in Hashtbl.add dec_cache key f; f
+let ciph_enc key = try Hashtbl.find enc_cache key with Not_found -> let f = real_cipher_enc key in Hashtbl.add enc_cache key f; f
+let container_one path =
+  let ext = ext_of (coq_string_of path) in
+  let (pg, er) = read_container_pg ciph_dec ext (bytes_of_string (read_file path)) in
+  (match pg.pg_game with Some g -> Printf.printf "GAME %s\n" (ocaml_string_of g) | None -> ());
+  (match pg.pg_engine with Some b -> Printf.printf "B0 %s\n" (hexo b) | None -> ());
+  List.iter (function None -> print_endline "X none" | Some b -> Printf.printf "X %s\n" (hexo b)) pg.pg_extra;
+  (match pg.pg_payload with Some b -> Printf.printf "PAYLOAD %s\n" (hexo b) | None -> ());
+  (match er with Some e -> Printf.printf "ERR %s\n" (err_name e) | None -> print_endline "OK")
+(* container <path> [<path> ...] | container - (paths on stdin) : one answer block per path, terminated by "END" *)
+let cmd_container () =
+  if Sys.argv.(2) = "-" then iter_lines (fun p -> container_one p; print_endline "END"; flush stdout)
+  else for i = 2 to Array.length Sys.argv - 1 do container_one Sys.argv.(i); print_endline "END" done
+(* mkcontainer : stdin records: ext, out path, b0 hex, n, n extra hex lines, prefix hex, padded compressed stream hex *)
+let cmd_mkcontainer () =
+  let hx () = let l = input_line stdin in bytes_of_string (unhex (if l = "-" then "" else l)) in
+  (try while true do
+    let ext = coq_string_of (input_line stdin) in let out = input_line stdin in
+    let b0 = hx () in
+    let n = int_of_string (input_line stdin) in
+    let extra = List.init n (fun _ -> ()) |> List.map (fun () -> hx ()) in
+    let prefix = hx () in let zpad = hx () in
+    let key = (match List.assoc_opt ext (List.map (fun (e, (_, k)) -> (e, k)) key_table) with Some k -> k | None -> failwith "ext") in
+    let file = write_container (ciph_enc key) b0 extra prefix zpad in
+    let oc = open_out_bin out in
+    List.iter (fun b -> output_char oc (Char.chr (int_of_byte b))) file; close_out oc
+  done with End_of_file -> ())
+(* bfblock <ext> : lines of 8-byte blocks (hex) -> "<dec hex> <enc hex>" *)
+let cmd_bfblock () =
+  let ext = coq_string_of Sys.argv.(2) in
+  let key = (match List.assoc_opt ext (List.map (fun (e, (_, k)) -> (e, k)) key_table) with Some k -> k | None -> failwith "ext") in
+  let d = real_cipher key and e = real_cipher_enc key in
+  iter_lines (fun l -> let b = bytes_of_string (unhex l) in Printf.printf "%s %s\n" (hex_of_bytes (d b)) (hex_of_bytes (e b)))
+
 (* frames : one hex stream per line -> "<tail> <type>:<timehex>:<payloadhex|-> ..." *)
 let cmd_frames () =
   iter_lines (fun l ->
@@ -352,6 +394,9 @@ let () =
   match Sys.argv.(1) with
   | "frames" -> cmd_frames ()
   | "defs" -> cmd_defs ()
+  | "container" -> cmd_container ()
+  | "mkcontainer" -> cmd_mkcontainer ()
+  | "bfblock" -> cmd_bfblock ()
   | "encode" -> cmd_encode ()
   | "bits" -> cmd_bits ()
   | "bitread" -> cmd_bitread ()
